@@ -37,8 +37,7 @@ def c40_predicate(sc, a):
 
 
 def run(ck):
-    harness, driver = base.build(ck)
-    res = ck.lean(PROPS, PROPS)
+    harness, driver, res = base.build(ck, PROPS)
     ck.lean_violations(res)
     reqs, rng = base.all_requests(ck)
     # more histories failing late: every pair (stage after a successful integration, kind of throw) x traits x flag
